@@ -7,6 +7,8 @@ import (
 	"reflect"
 	"runtime"
 	"runtime/debug"
+	"sort"
+	"strings"
 	"testing"
 
 	ucfg "github.com/elastic/go-ucfg"
@@ -43,128 +45,329 @@ func unpack(cfg *ucfg.Config, to interface{}, opts []ucfg.Option) (err error, pa
 	return cfg.Unpack(to, opts...), nil
 }
 
+func stepOpts(st *Step) ([]ucfg.Option, error) {
+	opts, err := policyOpts(st.Global)
+	if err != nil {
+		return nil, err
+	}
+	switch st.Tag {
+	case "":
+	case "config":
+		opts = append(opts, ucfg.StructTag("config"))
+	case "alt":
+		opts = append(opts, ucfg.StructTag(altTagName))
+	case "none":
+		opts = append(opts, ucfg.StructTag(noneTagName))
+	default:
+		return nil, fmt.Errorf("harness: unknown struct tag selector %q", st.Tag)
+	}
+	switch st.VTag {
+	case "":
+	case "validate":
+		opts = append(opts, ucfg.ValidatorTag("validate"))
+	case "altv":
+		opts = append(opts, ucfg.ValidatorTag(altVTagName))
+	case "none":
+		opts = append(opts, ucfg.ValidatorTag(noneVTagName))
+	default:
+		return nil, fmt.Errorf("harness: unknown validator tag selector %q", st.VTag)
+	}
+	if st.Sep != "" {
+		opts = append(opts, ucfg.PathSep(st.Sep))
+	}
+	return opts, nil
+}
+
+func (st *Step) optString() string {
+	return fmt.Sprintf("StructTag %q ValidatorTag %q PathSep %q global policy %q", st.Tag, st.VTag, st.Sep, st.Global)
+}
+
 func runCase(c Case, r *runlog.R) error {
+	// a class is counted once per case, however many calls of the history show it
+	seen := map[string]bool{}
+	class := func(label string) { seen[label] = true }
+	classIf := func(cond bool, label string) {
+		if cond {
+			seen[label] = true
+		}
+	}
+	defer func() {
+		labels := make([]string, 0, len(seen))
+		for l := range seen {
+			labels = append(labels, l)
+		}
+		sort.Strings(labels)
+		for _, l := range labels {
+			r.Class(l)
+		}
+	}()
 	if c.T == nil || c.T.Shape().Kind != "struct" || leafBase(c.T) != "" || c.P == nil || c.Cfg == nil || c.Cfg.K != "obj" {
 		return fmt.Errorf("harness: malformed case")
 	}
-	opts, err := policyOpts(c.Global)
-	if err != nil {
-		return err
+	if c.Alt != nil && !sameStructure(c.T, c.Alt) {
+		return fmt.Errorf("harness: malformed case: the two tag sets describe different Go structures")
 	}
-	if (runlog.IsOpen("D51") || avoided()["D51"]) && regexpFromContainer(&c) {
-		// open finding D51: an object or list is accepted as the setting of a regular expression
-		// (C13_AVOID=D51 treats it as open during development)
-		r.Excluded("D51")
-		r.Discard()
-		return nil
+	steps := c.steps()
+	for i := range steps {
+		if steps[i].Cfg == nil || steps[i].Cfg.K != "obj" {
+			return fmt.Errorf("harness: malformed case")
+		}
+		if c.Alt == nil && (tagSel(steps[i].Tag) == 1 || vtagSel(steps[i].VTag) == 1) {
+			return fmt.Errorf("harness: malformed case: no second tag set")
+		}
 	}
-	typ := c.T.Type()
-	prefilled := func() reflect.Value { // a fresh copy of the pre-filled value (addressable)
+	typ := buildType(c.T, c.Alt)
+	plan := planAliases(&c)
+	aliased, aliasDropped := 0, 0
+	newTarget := func() reflect.Value { // a newly pre-filled value (pointer to it)
 		p := reflect.New(typ)
 		c.T.Set(p.Elem(), c.P)
-		return p.Elem()
-	}
-	describe := func() string {
-		return fmt.Sprintf(" type   %v\n target %s\n config %s\n global policy %q", typ, gen.Show(prefilled()), showTree(c.Cfg), c.Global)
-	}
-	target := prefilled().Addr() // *struct
-	// a shallow copy keeps everything the struct referred to reachable, so that identities stay comparable
-	keep := reflect.New(target.Type().Elem())
-	keep.Elem().Set(target.Elem())
-	defer runtime.KeepAlive(keep)
-	before := fingerprintOf(target.Elem())
-
-	cfg, err := ucfg.NewFrom(c.Cfg.Go())
-	if err != nil {
-		return fmt.Errorf("harness: NewFrom(config) failed: %v\n%s", err, describe())
-	}
-	uerr, panicked := unpack(cfg, target.Interface(), opts)
-	if panicked != nil {
-		return fmt.Errorf("%v\n%s", panicked, describe())
+		aliased, aliasDropped = plan.apply(p.Elem())
+		return p
 	}
 
-	// what the case is about (independent of the outcome)
-	feats := map[string]bool{}
-	typeFeatures(c.T, feats)
-	ss := sites(c.T, c.Cfg)
-	nMentioned := countLeaves(ss)
-	nUntouched := unmentionedNonZero(c.T, prefilled(), c.Cfg)
+	type done struct {
+		target reflect.Value // *struct
+		copy   reflect.Value // deep copy of its value after its last call
+		step   int
+	}
+	var earlier []done
+	var history []string
+	var target reflect.Value
+	var prevCfg *ucfg.Config
+	nontrivial := false
 
-	if uerr != nil {
-		// failure: the struct still holds its previous field values
-		after := fingerprintOf(target.Elem())
-		if d := diffFingerprints(before, after); d != "" {
-			return fmt.Errorf("Unpack failed (%v) but changed the struct passed in\n %s\n%s\n after  %s", uerr, d, describe(), gen.Show(target.Elem()))
+	for k := range steps {
+		st := &steps[k]
+		opts, err := stepOpts(st)
+		if err != nil {
+			return err
 		}
-		if c.Fault == nil && !hasValidateTag(c.T) {
-			// nothing in the case is invalid: every mentioned setting must unpack on its own, or the failure is unexplained
-			x := newExpectation()
-			_, perr := x.merge(c.T, c.Global, prefilled(), c.Cfg, invalid, "")
+		v := makeView(c.T, c.Alt, st.Tag, st.VTag)
+		view := v.td
+		if (runlog.IsOpen("D51") || avoided()["D51"]) && regexpFromContainer(view, st.Cfg, st.Sep) {
+			// open finding D51: an object or list is accepted as the setting of a regular expression
+			// (C13_AVOID=D51 treats it as open during development)
+			r.Excluded("D51")
+			r.Discard()
+			return nil
+		}
+		if st.Fresh || !target.IsValid() {
+			if target.IsValid() {
+				earlier = append(earlier, done{target, deepCopy(target.Elem()), k - 1})
+			}
+			target = newTarget()
+		}
+		old := deepCopy(target.Elem()) // what the call starts from; never written to
+		describe := func() string {
+			h := ""
+			if len(history) > 0 {
+				h = "\n earlier calls in this process on the same type:\n  " + strings.Join(history, "\n  ")
+			}
+			return fmt.Sprintf(" type   %v\n call %d of %d: %s\n target %s\n config %s%s", typ, k+1, len(steps), st.optString(), gen.Show(old), showTree(st.Cfg), h)
+		}
+		// a shallow copy keeps everything the struct referred to reachable, so that identities stay comparable
+		keep := reflect.New(typ)
+		keep.Elem().Set(target.Elem())
+		defer runtime.KeepAlive(keep)
+		before := fingerprintOf(target.Elem())
+		var sharedBefore [][]string
+		for _, p := range plan.spaths {
+			if d, ok := walkPath(target.Elem(), p); ok {
+				sharedBefore = append(sharedBefore, append([]string{header(d)}, fingerprintOf(d)...))
+			} else {
+				sharedBefore = append(sharedBefore, nil)
+			}
+		}
+
+		cfg := prevCfg
+		if !st.Reuse || cfg == nil {
+			cfg, err = ucfg.NewFrom(st.Cfg.Go())
+			if err != nil {
+				return fmt.Errorf("harness: NewFrom(config) failed: %v\n%s", err, describe())
+			}
+		}
+		prevCfg = cfg
+		arg := target.Interface()
+		if c.Indirect {
+			pp := reflect.New(target.Type())
+			pp.Elem().Set(target)
+			arg = pp.Interface()
+		}
+		uerr, panicked := unpack(cfg, arg, opts)
+		if panicked != nil {
+			return fmt.Errorf("%v\n%s", panicked, describe())
+		}
+		// what the call is about (independent of the outcome)
+		ss := sites(view, st.Cfg, st.Sep)
+		nMentioned := countLeaves(ss)
+		nUntouched := unmentionedNonZero(view, old, st.Cfg, st.Sep)
+
+		if uerr != nil {
+			// failure: the struct still holds its previous field values
+			after := fingerprintOf(target.Elem())
+			if d := diffFingerprints(before, after); d != "" {
+				return fmt.Errorf("Unpack failed (%v) but changed the struct passed in\n %s\n%s\n after  %s", uerr, d, describe(), gen.Show(target.Elem()))
+			}
+			if st.Fault == nil && !hasValidateTag(view) {
+				// nothing in the call is invalid: every mentioned setting must unpack on its own, or the failure is unexplained
+				x := newExpectation(st.Sep)
+				_, perr := x.merge(view, st.Global, old, st.Cfg, invalid, "")
+				if x.outside {
+					r.Discard()
+					return nil
+				}
+				if perr == nil {
+					return fmt.Errorf("Unpack failed although every mentioned setting unpacks into a fresh target of its field's type and no validator (under the tag name the call reads) rejects a value: %v\n%s", uerr, describe())
+				}
+				if _, ok := perr.(*badSetting); !ok {
+					return perr
+				}
+				class("failure explained by a setting that does not convert on its own")
+			}
+			class("outcome: error")
+			if st.Fault != nil {
+				class("fault: " + st.Fault.Kind)
+				classIf(st.Fault.Index > 0, "fault after at least one processed setting")
+				classIf(st.Fault.Index >= 3, "fault after at least three processed settings")
+				nontrivial = nontrivial || st.Fault.Index > 0
+			}
+		} else {
+			// success: exactly the mentioned settings were applied. A field that shares a pointer, map or non-flat slice
+			// with another field has no setting; what it shares may have changed through the other field, so the
+			// expectation starts from its present contents (its identity and direct contents are compared below)
+			for _, p := range plan.spaths {
+				o, ok1 := walkPath(old, p)
+				d, ok2 := walkPath(target.Elem(), p)
+				if ok1 && ok2 {
+					o.Set(deepCopy(d))
+				}
+			}
+			x := newExpectation(st.Sep)
+			want, perr := x.merge(view, st.Global, old, st.Cfg, target.Elem(), "")
 			if x.outside {
 				r.Discard()
 				return nil
 			}
-			if perr == nil {
-				return fmt.Errorf("Unpack failed although every mentioned setting unpacks into a fresh target of its field's type and no validator rejects a value: %v\n%s", uerr, describe())
-			}
-			if _, ok := perr.(*badSetting); !ok {
+			if perr != nil {
+				if _, ok := perr.(*badSetting); ok {
+					return fmt.Errorf("Unpack succeeded although a mentioned setting cannot be unpacked on its own: %v\n%s\n result %s", perr, describe(), gen.Show(target.Elem()))
+				}
 				return perr
 			}
-			r.Class("failure explained by a setting that does not convert on its own")
-		}
-		r.Class("outcome: error")
-		if c.Fault != nil {
-			r.Class("fault: " + c.Fault.Kind)
-			r.ClassIf(c.Fault.Index > 0, "fault after at least one processed setting")
-			r.ClassIf(c.Fault.Index >= 3, "fault after at least three processed settings")
-			r.NonTrivialIf(c.Fault.Index > 0)
-		}
-	} else {
-		// success: exactly the mentioned settings were applied
-		x := newExpectation()
-		want, perr := x.merge(c.T, c.Global, prefilled(), c.Cfg, target.Elem(), "")
-		if x.outside {
-			r.Discard()
-			return nil
-		}
-		if perr != nil {
-			if _, ok := perr.(*badSetting); ok {
-				return fmt.Errorf("Unpack succeeded although a mentioned setting cannot be unpacked on its own: %v\n%s\n result %s", perr, describe(), gen.Show(target.Elem()))
+			if !gen.EqualValues(want, target.Elem()) {
+				return fmt.Errorf("Unpack succeeded with an unexpected result\n%s\n got    %s\n want   %s", describe(), gen.Show(target.Elem()), gen.Show(want))
 			}
-			return perr
+			if len(x.strict) > 0 {
+				return fmt.Errorf("Unpack changed a part of the target the configuration does not mention\n %s\n%s\n got    %s\n want   %s", x.strict[0], describe(), gen.Show(target.Elem()), gen.Show(want))
+			}
+			class("outcome: ok")
+			if st.Fault != nil {
+				class("fault without effect: " + st.Fault.Kind)
+			}
+			for k := range x.listMerges {
+				class("list: " + k)
+			}
+			for k := range x.classes {
+				class(k)
+			}
 		}
-		if !gen.EqualValues(want, target.Elem()) {
-			return fmt.Errorf("Unpack succeeded with an unexpected result\n%s\n got    %s\n want   %s", describe(), gen.Show(target.Elem()), gen.Show(want))
+		// a field that shares a pointer, map or non-flat slice with another one has no setting: it still refers to
+		// the same object and holds the same direct contents (what it shares with the other field may have changed)
+		for i, p := range plan.spaths {
+			d, ok := walkPath(target.Elem(), p)
+			if !ok || sharedBefore[i] == nil {
+				continue
+			}
+			now := append([]string{header(d)}, fingerprintOf(d)...)
+			if diff := diffFingerprints(sharedBefore[i], now); diff != "" {
+				return fmt.Errorf("Unpack (error: %v) changed a field the configuration does not mention, which was pre-filled from the same slice, map or pointer as another field (path %v)\n %s\n%s\n after  %s", uerr, p, diff, describe(), gen.Show(target.Elem()))
+			}
 		}
-		if len(x.strict) > 0 {
-			return fmt.Errorf("Unpack changed a part of the target the configuration does not mention\n %s\n%s\n got    %s\n want   %s", x.strict[0], describe(), gen.Show(target.Elem()), gen.Show(want))
+		// targets of earlier calls are not this call's business
+		for _, e := range earlier {
+			if d := strictSame(e.copy, e.target.Elem(), ""); d != "" {
+				return fmt.Errorf("Unpack changed the target of an earlier call (call %d), which was not passed to it\n %s\n%s", e.step+1, d, describe())
+			}
 		}
-		r.Class("outcome: ok")
-		if c.Fault != nil {
-			r.Class("fault without effect: " + c.Fault.Kind)
-		}
-		for k := range x.listMerges {
-			r.Class("list: " + k)
-		}
-		for k := range x.classes {
-			r.Class(k)
+
+		history = append(history, fmt.Sprintf("call %d: %s, newly pre-filled target %v, same *Config as before %v, config %s -> error %v", k+1, st.optString(), st.Fresh, st.Reuse, showTree(st.Cfg), uerr))
+		nontrivial = nontrivial || (nMentioned >= 1 && nUntouched >= 1)
+		classIf(nMentioned == 0, "no setting mentioned")
+		classIf(nMentioned >= 4, "four or more settings mentioned")
+		classIf(nUntouched >= 1, "unmentioned non-zero field")
+		class("global policy: " + map[string]string{"": "default"}[st.Global] + st.Global)
+		if c.Alt != nil {
+			class("option StructTag: " + map[string]string{"": "not given", "config": "the default, explicitly", "alt": "the second tag set", "none": "a tag name no field has"}[st.Tag])
+			class("option ValidatorTag: " + map[string]string{"": "not given", "validate": "the default, explicitly", "altv": "the second tag set", "none": "a tag name no field has"}[st.VTag])
+			class("option PathSep: " + map[string]string{"": "not given"}[st.Sep] + st.Sep)
+			classIf(st.Sep != "" && mentionsSplitName(ss, st.Sep), "a mentioned setting is read through a name the separator splits")
+			classIf(k > 0 && !st.Fresh, "call over the result of the previous call")
+			classIf(k > 0 && st.Fresh, "call into a newly pre-filled target of a type unpacked before")
+			classIf(st.Reuse, "the same *Config object unpacked again")
+			for j := 0; j < k; j++ {
+				classIf(tagSel(steps[j].Tag) != tagSel(st.Tag), "type unpacked earlier under another struct tag name")
+				classIf(vtagSel(steps[j].VTag) != vtagSel(st.VTag), "type unpacked earlier under another validator tag name")
+				classIf(steps[j].Sep != st.Sep, "type unpacked earlier under another path separator")
+			}
 		}
 	}
-	r.NonTrivialIf(nMentioned >= 1 && nUntouched >= 1)
-	r.ClassIf(c.T.Kind != "struct", "target is a catalogue struct with methods")
-	r.ClassIf(nMentioned == 0, "no setting mentioned")
-	r.ClassIf(nMentioned >= 4, "four or more settings mentioned")
-	r.ClassIf(nUntouched >= 1, "unmentioned non-zero field")
-	r.Class("global policy: " + map[string]string{"": "default"}[c.Global] + c.Global)
+	r.NonTrivialIf(nontrivial)
+	feats := map[string]bool{}
+	typeFeatures(c.T, feats)
 	for k := range feats {
-		r.Class("type has " + k)
+		class("type has " + k)
+	}
+	classIf(c.T.Kind != "struct", "target is a catalogue struct with methods")
+	classIf(c.Indirect, "Unpack receives a pointer to the pointer to the struct")
+	classIf(len(steps) > 1, fmt.Sprintf("history of %d calls", len(steps)))
+	if aliased > 0 {
+		classIf(len(plan.spaths) > 0, "alias: two fields pre-filled from one pointer, map or non-flat slice (one of them never mentioned)")
+		classIf(len(plan.use) > len(plan.spaths), "alias: two places pre-filled from one flat slice (both may be mentioned)")
+	}
+	for _, a := range plan.use {
+		classIf(aliased > 0 && a.Cut > 0, "alias: the unmentioned or second place holds a prefix of the other's slice")
+		classIf(aliased > 0 && a.Cut < 0, "alias: one place holds a prefix of the slice, its spare capacity is the other's contents")
+	}
+	classIf(aliasDropped > 0, "alias dropped: an injected validator tag made the two types differ")
+	if c.Alt != nil && c.T.Kind == "struct" {
+		viewFeatures(c.T, c.Alt, classIf)
 	}
 	return nil
 }
 
+// mentionsSplitName reports whether a mentioned setting is read through a field name the separator splits.
+func mentionsSplitName(ss []site, sep string) bool {
+	for _, s := range ss {
+		for _, p := range s.path {
+			if strings.Contains(p, sep) {
+				return true
+			}
+		}
+	}
+	return false
+}
+
+// viewFeatures records how the two tag sets of the outermost struct differ.
+func viewFeatures(t, alt *gen.TD, classIf func(bool, string)) {
+	for i := range t.Fields {
+		p, a := &t.Fields[i], &alt.Fields[i]
+		if p.Unexp {
+			continue
+		}
+		classIf(!p.Inline && !a.Inline && p.ConfigName() != a.ConfigName(), "tag sets differ: name of a field")
+		classIf(p.Ignore != a.Ignore, "tag sets differ: ignore flag")
+		classIf(p.Inline != a.Inline, "tag sets differ: inline flag")
+		classIf(p.Policy != a.Policy, "tag sets differ: policy flag")
+		for j := range t.Fields {
+			classIf(i != j && !a.Inline && !t.Fields[j].Inline && !t.Fields[j].Unexp && a.ConfigName() == t.Fields[j].ConfigName(), "tag sets differ: a field takes the name another field has under the other tag")
+		}
+	}
+}
+
 var subUnpack = runlog.Register(&runlog.Sub[Case]{
 	Name: "prefilled-unpack",
-	Rule: "random struct type (reflect.StructOf over all primitive kinds, named variants, durations, regexps, pointers, slices, arrays, maps, nested and inline structs; ignored and unexported fields; replace/append/prepend/merge tags at any depth; catalogue types with InitDefaults, Validate and Unpack methods; in 1 of 8 cases the target itself is a catalogue struct with InitDefaults and Validate), a pre-filled value, a configuration built from the type that mentions a random subset of the fields (valid settings of the right shape; nil settings count as not mentioned; settings under the names of ignored/unexported fields), a global policy option, and in 30% of the cases one injected fault (unconvertible setting, wrong shape, failing Validate of a primitive or of a struct after all its fields, failing Unpacker, failing validate tag on a mentioned or an absent field) at a position biased to late fields. On success the target must equal the expectation built from the pre-filled value, the type's own InitDefaults, every mentioned primitive unpacked alone into a fresh zero target, and the list policy in force (unmentioned parts bit for bit); on error the struct must hold its previous values (maps and pointees by identity only); without a fault Unpack must succeed. Non-trivial: at least one mentioned primitive setting and at least one unmentioned field with a non-zero pre-filled value, or Unpack failed at an injected fault that is processed after at least one mentioned setting. Distinct: hash of the whole case.",
+	Rule: "random struct type (reflect.StructOf over all primitive kinds, named variants, durations, regexps, pointers, slices, arrays, maps, nested and inline structs; ignored and unexported fields; replace/append/prepend/merge tags at any depth; catalogue types with InitDefaults, Validate and Unpack methods; in 1 of 8 cases the target itself is a catalogue struct with InitDefaults and Validate), a pre-filled value, a configuration built from the type that mentions a random subset of the fields (valid settings of the right shape; nil settings count as not mentioned; settings under the names of ignored/unexported fields), a global policy option, and in 30% of the cases one injected fault (unconvertible setting, wrong shape, failing Validate of a primitive or of a struct after all its fields, failing Unpacker, failing validate tag on a mentioned or an absent field) at a position biased to late fields. In 1 of 6 generated types two fields anywhere in the nest of struct values are pre-filled from the SAME slice (the whole slice, or two windows of one backing array so that the spare capacity of one is the contents of the other), map or pointer, and in 1 of 12 cases two places below slices share one flat slice: a field that shares a pointer, a map or a slice holding pointers or maps never gets a setting and must keep its identity and its direct contents (what it shares may change through the other field); places that share a flat slice may both be mentioned and must each come out as if they did not share. On success the target must equal the expectation built from the pre-filled value, the type's own InitDefaults, every mentioned primitive unpacked alone into a fresh zero target, and the list policy in force (unmentioned parts bit for bit); on error the struct must hold its previous values (maps and pointees by identity only); without a fault Unpack must succeed. Non-trivial: at least one mentioned primitive setting and at least one unmentioned field with a non-zero pre-filled value, or Unpack failed at an injected fault that is processed after at least one mentioned setting. Distinct: hash of the whole case.",
 	Gen:  genCase,
 	Run:  runCase,
 })
